@@ -145,6 +145,30 @@ func lifeScenario(kind, what string, rng *rand.Rand) {
 		time.Sleep(150 * time.Millisecond)
 		doClose(1)
 		wg.Wait()
+	case "hsstall": // Close while the dial is past the TCP connect and stuck in the TLS handshake
+		s.fault.Store("stall")
+		for i := 0; i < 2; i++ {
+			wg.Add(1)
+			go func() { defer wg.Done(); one(3*time.Second, "during") }()
+		}
+		time.Sleep(150 * time.Millisecond)
+		doClose(1)
+		wg.Wait()
+		s.fault.Store("")
+	case "eol": // an exhausted pipelined connection with a query in flight, a second connection, then Close
+		if !exhaustIDs(u, s, sc, rng) {
+			break
+		}
+		s.fault.Store("noreply")
+		wg.Add(1)
+		go func() { defer wg.Done(); one(3*time.Second, "during") }() // ID 65535 on connection 1, never answered
+		time.Sleep(60 * time.Millisecond)
+		wg.Add(1)
+		go func() { defer wg.Done(); one(3*time.Second, "during") }() // needs connection 2
+		time.Sleep(120 * time.Millisecond)
+		doClose(1)
+		wg.Wait()
+		s.fault.Store("")
 	case "timeout-then-close": // an exchange timed out on a healthy connection, then Close
 		one(time.Second, "before")
 		s.fault.Store("noreply")
@@ -162,7 +186,7 @@ func modeLife(thorough bool) {
 	onlyEvents = map[string]bool{}
 	rng := rand.New(rand.NewSource(seed))
 	kinds := []string{"udp", "tcp", "tcp+pipeline", "tls", "tls+pipeline", "https", "quic", "h3"}
-	whats := []string{"idle", "inflight", "latedial", "timeout-then-close", "blackhole"}
+	whats := []string{"idle", "inflight", "latedial", "timeout-then-close", "blackhole", "hsstall", "eol"}
 	// sequential: the socket census is process wide
 	for _, k := range kinds {
 		for _, w := range whats {
@@ -170,6 +194,12 @@ func modeLife(thorough bool) {
 				continue
 			}
 			if w == "blackhole" && k != "quic" && k != "h3" {
+				continue
+			}
+			if w == "hsstall" && !(k == "tls" || k == "tls+pipeline" || k == "https") {
+				continue
+			}
+			if w == "eol" && !(k == "tcp+pipeline" || (thorough && k == "tls+pipeline")) {
 				continue
 			}
 			lifeScenario(k, w, rng)
